@@ -242,6 +242,18 @@ def gen_cases(spec_dir, module, cfg, tag, env=None, workers=4, extra=(), timeout
     return cases, g, dst
 
 
+def _uniq(ts):
+    """TLC re-executes a behaviour (and its PrintT side effects) when it reports an
+    evaluation error; identical tuples of one run are the same report."""
+    seen, out = set(), []
+    for t in ts:
+        k = json.dumps(t, sort_keys=True)
+        if k not in seen:
+            seen.add(k)
+            out.append(t)
+    return out
+
+
 class Val:
     """Result of validating an event file against a trace specification."""
 
@@ -338,11 +350,11 @@ def validate(spec_dir, module, cfg, events, props, tag, chunks=8, extra_env=None
                 rj = tuples(out, "REJECT")
                 if len(rj) != len(re.findall(r'<<\s*"REJECT"', out)):
                     raise ToolError("REJECT lines printed by TLC could not all be parsed")
-                v.rejects += rj
-                v.stats += tuples(out, "STAT")
+                v.rejects += _uniq(rj)
+                v.stats += _uniq(tuples(out, "STAT"))
                 v.skips += tuples(out, "SKIP")
                 for h in heads:
-                    v.other.setdefault(h, []).extend(tuples(out, h))
+                    v.other.setdefault(h, []).extend(_uniq(tuples(out, h)))
                 for a in tuples(out, "ACCEPTED"):
                     v.accepted += a[1]
     v.wall = time.time() - t0
